@@ -83,23 +83,30 @@ def digitVal (c : Char) : Nat := c.toNat - '0'.toNat
 
 def natOfDigits (ds : List Char) : Nat := ds.foldl (fun a c => 10 * a + digitVal c) 0
 
-/-- split a NUM token into sign, integer digits, fraction digits, exponent (sign, digits) -/
-def decOfToken (cs : List Char) : Dec :=
-  let (neg, cs) := match cs with
-    | '-' :: r => (true, r)
-    | '+' :: r => (false, r)
-    | r => (false, r)
+/-- leading sign of a token -/
+def stripSign : List Char → Bool × List Char
+  | '-' :: r => (true, r)
+  | '+' :: r => (false, r)
+  | r => (false, r)
+
+/-- exponent part `[eE][-+]?digits` (empty = no exponent) -/
+def expOf : List Char → Int
+  | _ :: '-' :: r => - (natOfDigits r : Int)
+  | _ :: '+' :: r => (natOfDigits r : Int)
+  | _ :: r => (natOfDigits r : Int)
+  | [] => 0
+
+/-- the unsigned part: integer digits, optional '.' and fraction digits, exponent -/
+def decBody (neg : Bool) (cs : List Char) : Dec :=
   let ip := cs.takeWhile isDigit
   let r1 := cs.dropWhile isDigit
   let (fp, r2) := match r1 with
     | '.' :: r => (r.takeWhile isDigit, r.dropWhile isDigit)
     | r => ([], r)
-  let e : Int := match r2 with
-    | _ :: '-' :: r => - (natOfDigits r : Int)
-    | _ :: '+' :: r => (natOfDigits r : Int)
-    | _ :: r => (natOfDigits r : Int)
-    | [] => 0
-  { neg := neg, mant := natOfDigits (ip ++ fp), exp := e - fp.length }
+  { neg := neg, mant := natOfDigits (ip ++ fp), exp := expOf r2 - fp.length }
+
+/-- split a NUM token into sign, integer digits, fraction digits, exponent (sign, digits) -/
+def decOfToken (cs : List Char) : Dec := decBody (stripSign cs).1 (stripSign cs).2
 
 /-! ### lines -/
 
